@@ -56,6 +56,10 @@ def run(ctx):
         if i % 6 == 5:
             p["tiny"] = True
             p.pop("feed", None)
+        if i % 6 == 3:
+            p["offset"] = True
+            p.pop("feed", None)
+            p.pop("halves", None)
         hist = D.nndvi_history(rng, nb, equal_sizes=(i % 4 == 0), some_even=bool(p.get("halves")))
         p["k_nn"] = D.safe_k(hist, p["k_nn"])
         t3.append(D.run_nndvi(p, hist, seed=rng.randrange(10 ** 6)))
